@@ -302,8 +302,14 @@ func (r *Run) Finish() int {
 		evd["assumptions"] = []string{}
 	}
 	b, _ := json.MarshalIndent(evd, "", " ")
-	_ = os.MkdirAll(filepath.Join(Root(), "evidence"), 0o755)
-	if err := os.WriteFile(filepath.Join(Root(), "evidence", r.ID+".json"), b, 0o644); err != nil {
+	// a run against a scratch worktree (VERIF_REPO, seeded changes) or of one component alone (VERIF_ONLY*) is a
+	// development run: its evidence does not replace that of the registered check against /repo
+	evDir := "evidence"
+	if os.Getenv("VERIF_REPO") != "" || os.Getenv("VERIF_ONLY") != "" || os.Getenv("VERIF_ONLY_ALL") != "" {
+		evDir = filepath.Join(".scratch", "evidence-dev")
+	}
+	_ = os.MkdirAll(filepath.Join(Root(), evDir), 0o755)
+	if err := os.WriteFile(filepath.Join(Root(), evDir, r.ID+".json"), b, 0o644); err != nil {
 		fmt.Fprintf(os.Stderr, "cannot write evidence: %v\n", err)
 		return 2
 	}
